@@ -299,7 +299,7 @@ Theorem second_iteration_wide (L : lang) o o' tag attrs ch2 x w2 :
   Proofs.EncWbxmlAbs.plain_env e = true -> D2.vals_ok L = true -> l_exts L = None ->
   TK.tree_ok3 L 0 R2 = true ->
   find (fun y => l_id y =? l_id L) TBL = Some L ->
-  lang_choice TBL L (E.header_public_id e) (wo_lang o') -> wo_charset o' = 0 ->
+  lang_choiceW TBL L e (wo_lang o') -> wo_charset o' = 0 ->
   E.o_version o < 4 -> E.header_public_id e < 4294967296 -> E.header_public_id e <> 0 ->
   (match Proofs.EncWbxmlAbs.header_pid e with Some p => D2.okb p = true | None => True end) ->
   no_data (D3.doc_events3 L e (E.o_keep_ws o) R2) = true ->
